@@ -112,3 +112,213 @@ pub fn showdown_search(seed: u64, n: u64) -> i32 {
     println!("SEARCH tried={} found=0", tried);
     0
 }
+
+// ---------------------------------------------------------------------------------------------
+// Flop enumeration oracle (C02 / C04 / C08), written from the property statements.
+use espada::evaluator::FlopExhaustiveEvaluator;
+use espada::hand_range::HandRange;
+
+pub struct IterCase {
+    pub flop: [Card; 3],
+    pub ranges: Vec<Vec<(CardPair, f32)>>,
+    pub scopes: Vec<(u8, u8, u8, u8)>, // chained scopes; empty = unscoped
+}
+
+impl IterCase {
+    pub fn describe(&self) -> String {
+        let f: Vec<String> = self.flop.iter().map(|c| c.to_string()).collect();
+        let rs: Vec<String> = self.ranges.iter().map(|r| {
+            if r.is_empty() { "-".to_string() } else { r.iter().map(|(p, w)| format!("{}:{}", p, w)).collect::<Vec<_>>().join(",") }
+        }).collect();
+        let sc: Vec<String> = self.scopes.iter().map(|s| format!("{}.{}.{}.{}", s.0, s.1, s.2, s.3)).collect();
+        format!("iter {} {} {}", f.join(""), if sc.is_empty() { "full".to_string() } else { sc.join("/") }, rs.join(" "))
+    }
+
+    pub fn parse(args: &[String]) -> IterCase {
+        let f = &args[0];
+        let flop = [f[0..2].parse().unwrap(), f[2..4].parse().unwrap(), f[4..6].parse().unwrap()];
+        let scopes = if args[1] == "full" { vec![] } else {
+            args[1].split('/').map(|s| { let v: Vec<u8> = s.split('.').map(|x| x.parse().unwrap()).collect(); (v[0], v[1], v[2], v[3]) }).collect()
+        };
+        let ranges = args[2..].iter().map(|r| {
+            if r == "-" { vec![] } else {
+                r.split(',').map(|t| { let (p, w) = t.split_once(':').unwrap(); (p.parse::<CardPair>().unwrap(), w.parse::<f32>().unwrap()) }).collect()
+            }
+        }).collect();
+        IterCase { flop, ranges, scopes }
+    }
+}
+
+type Deal = ([Card; 5], Vec<CardPair>, f32);
+
+/// every legal deal of positions [from, to), position by position, last player's combo fastest
+fn expected(flop: &[Card; 3], entries: &Vec<Vec<(CardPair, f32)>>, from: (u8, u8), to: (u8, u8)) -> Vec<Deal> {
+    let deck: Vec<Card> = (0..52).map(card).filter(|c| !flop.contains(c)).collect();
+    let mut out = vec![];
+    if entries.iter().any(|e| e.is_empty()) { return out; }
+    let n = entries.len();
+    for t in 0..48u8 { for r in (t + 1)..49u8 {
+        if (t, r) < from || (t, r) >= to { continue; }
+        let mut idx = vec![0usize; n];
+        loop {
+            let board = [flop[0], flop[1], flop[2], deck[t as usize], deck[r as usize]];
+            let mut cards: Vec<Card> = board.to_vec();
+            let mut combos = vec![];
+            let mut p: f32 = 1.0;
+            for i in 0..n { let e = entries[i][idx[i]]; cards.push(e.0[0]); cards.push(e.0[1]); combos.push(e.0); p *= e.1; }
+            let mut d = cards.clone(); d.sort(); d.dedup();
+            if d.len() == cards.len() { out.push((board, combos, p)); }
+            // odometer
+            let mut k = n;
+            while k > 0 { if idx[k - 1] + 1 < entries[k - 1].len() { idx[k - 1] += 1; for j in k..n { idx[j] = 0; } break; } k -= 1; }
+            if k == 0 { break; }
+        }
+    } }
+    out
+}
+
+fn drain(flop: &[Card; 3], ranges: &Vec<HandRange>, scope: Option<(u8, u8, u8, u8)>) -> Vec<Deal> {
+    let board = [Some(flop[0]), Some(flop[1]), Some(flop[2]), None, None];
+    let mut ev = FlopExhaustiveEvaluator::new(&board, ranges);
+    if let Some(s) = scope { ev.scope(s.0, s.1, s.2, s.3); }
+    let mut it = ev.into_iter();
+    let mut out = vec![];
+    while let Some(sd) = it.next() {
+        let combos: Vec<CardPair> = sd.players().iter().map(|p| p.hole_cards()).collect();
+        out.push((*sd.board(), combos, sd.probability()));
+    }
+    // stays exhausted
+    for _ in 0..3 { if it.next().is_some() { out.push(([flop[0]; 5], vec![], -1.0)); } }
+    out
+}
+
+/// Ok(summary) or Err(difference). Entry order inside a range is the HashMap's order, so the
+/// comparison is done per board position on the *set* of combos and, for single-combo players and
+/// for the overall count, exactly.
+fn run_scope(flop: &[Card; 3], ranges: &Vec<HandRange>, sc: Option<(u8, u8, u8, u8)>) -> Result<Vec<Deal>, String> {
+    let fl = *flop; let rg = ranges.clone();
+    // a default-sized (2 MiB) thread stack, as in the property statement
+    let h = std::thread::Builder::new().stack_size(2 * 1024 * 1024).spawn(move || drain(&fl, &rg, sc)).unwrap();
+    h.join().map_err(|_| format!("panic while iterating scope {:?}", sc))
+}
+
+fn same(g: &Deal, w: &Deal) -> bool {
+    g.0 == w.0 && g.1 == w.1 && (g.2 == w.2 || (g.2.is_nan() && w.2.is_nan()))
+}
+
+/// mode "c02": absolute oracle (every legal deal once, in order, right board/combos/probability);
+/// mode "c04": relational oracle (a scope yields the unscoped run's showdowns at positions in [from,to));
+/// mode "c08": only panics count.
+pub fn check_iter(case: &IterCase, mode: &str) -> Result<String, String> {
+    let ranges: Vec<HandRange> = case.ranges.iter().map(|r| r.iter().cloned().collect::<HandRange>()).collect();
+    // the iterator's own entry order: card_pairs() iteration order, as in the constructor
+    let entries: Vec<Vec<(CardPair, f32)>> = ranges.iter().map(|r| r.card_pairs().iter().map(|(a, b)| (*a, *b)).collect()).collect();
+    let scopes: Vec<Option<(u8, u8, u8, u8)>> = if case.scopes.is_empty() { vec![None] } else { case.scopes.iter().map(|s| Some(*s)).collect() };
+    let deck: Vec<Card> = (0..52).map(card).filter(|c| !case.flop.contains(c)).collect();
+    let full = if mode == "c04" { Some(run_scope(&case.flop, &ranges, None)?) } else { None };
+    let mut total = 0usize;
+    for sc in scopes.iter() {
+        let (from, to) = match sc { None => ((0, 1), (48, 49)), Some(s) => ((s.0, s.1), (s.2, s.3)) };
+        let got = match run_scope(&case.flop, &ranges, *sc) { Ok(g) => g, Err(e) => return Err(e) };
+        if mode == "c08" { total += got.len(); continue; }
+        let want: Vec<Deal> = match &full {
+            Some(f) => f.iter().filter(|d| {
+                let t = deck.iter().position(|c| *c == d.0[3]).unwrap_or(99) as u8;
+                let r = deck.iter().position(|c| *c == d.0[4]).unwrap_or(99) as u8;
+                (t, r) >= from && (t, r) < to
+            }).cloned().collect(),
+            None => expected(&case.flop, &entries, from, to),
+        };
+        if got.len() != want.len() {
+            return Err(format!("scope {:?}: {} showdowns, expected {}", sc, got.len(), want.len()));
+        }
+        for (k, (g, w)) in got.iter().zip(want.iter()).enumerate() {
+            if !same(g, w) {
+                return Err(format!("scope {:?}: showdown #{} is board={:?} combos={:?} p={} expected board={:?} combos={:?} p={}", sc, k, g.0, g.1, g.2, w.0, w.1, w.2));
+            }
+        }
+        total += got.len();
+    }
+    if mode == "c04" && case.scopes.len() > 1 {
+        // the chain as a whole reproduces the unscoped run
+        if total != full.as_ref().unwrap().len() { return Err(format!("chained scopes yield {} showdowns, the full run {}", total, full.unwrap().len())); }
+    }
+    Ok(format!("{} showdowns match", total))
+}
+
+fn rand_pos(rng: &mut Rng) -> (u8, u8) {
+    let t = rng.below(48) as u8;
+    let r = t + 1 + rng.below((48 - t) as u64) as u8;
+    (t, r)
+}
+
+pub fn gen_iter_case(rng: &mut Rng, it: u64) -> IterCase {
+    let mut deck: Vec<usize> = (0..52).collect();
+    for i in 0..51 { let j = i + rng.below((52 - i) as u64) as usize; deck.swap(i, j); }
+    let flop = [card(deck[0]), card(deck[1]), card(deck[2])];
+    let mode = it % 8;
+    let np = 1 + rng.below(3) as usize;
+    let mut ranges = vec![];
+    for p in 0..np {
+        let size = match mode {
+            0 => 1,
+            1 => 1 + rng.below(3) as usize,
+            2 => if p == 0 { 0 } else { 2 },            // empty range
+            3 => if p == 0 { 300 } else { 1 },          // more than 255 combos
+            4 => if p == 0 { 256 } else { 1 },
+            5 => if p == 0 { 1 } else { 40 },           // narrow beside wide: long blocked runs
+            _ => 1 + rng.below(6) as usize,
+        };
+        let mut r: Vec<(CardPair, f32)> = vec![];
+        let mut guard = 0;
+        while r.len() < size && guard < 100000 {
+            guard += 1;
+            // draw from a small pool so that players overlap each other and the flop
+            let pool = if mode == 3 || mode == 4 || mode == 5 { 52 } else { 12 };
+            let a = card(deck[rng.below(pool) as usize]);
+            let b = card(deck[rng.below(pool) as usize]);
+            if a == b { continue; }
+            let cp = CardPair::new(a, b);
+            if r.iter().any(|x| x.0 == cp) { continue; }
+            let w = [1.0f32, 0.5, 0.25, 0.75][rng.below(4) as usize];
+            r.push((cp, w));
+        }
+        ranges.push(r);
+    }
+    let mut scopes = vec![];
+    if it % 3 == 1 {
+        // a chain of consecutive scopes from (0,1) to (48,49)
+        let mut cuts: Vec<(u8, u8)> = (0..(1 + rng.below(4))).map(|_| rand_pos(rng)).collect();
+        cuts.sort();
+        let mut prev = (0u8, 1u8);
+        for c in cuts { scopes.push((prev.0, prev.1, c.0, c.1)); prev = c; }
+        scopes.push((prev.0, prev.1, 48, 49));
+    } else if it % 3 == 2 {
+        let a = rand_pos(rng); let b = rand_pos(rng);
+        let (a, b) = if a <= b { (a, b) } else { (b, a) };
+        scopes.push((a.0, a.1, b.0, b.1));
+    }
+    IterCase { flop, ranges, scopes }
+}
+
+pub fn iter_search(seed: u64, n: u64, marker: &str, mode: &str) -> i32 {
+    std::panic::set_hook(Box::new(|_| {}));
+    let mut rng = Rng(seed ^ 0xC02);
+    for it in 0..n {
+        let case = gen_iter_case(&mut rng, it);
+        if mode == "c02" && !case.scopes.is_empty() { continue; }
+        if mode == "c04" && case.scopes.is_empty() { continue; }
+        let d = format!("{} {}", case.describe().replacen("iter ", &format!("iter {} ", mode), 1), "");
+        let d = d.trim().to_string();
+        if !marker.is_empty() { let _ = std::fs::write(marker, &d); }
+        let res = check_iter(&case, mode);
+        let res = match res { Err(e) if mode == "c08" && !e.starts_with("panic") => Ok(e), x => x };
+        if let Err(e) = res {
+            println!("WITNESS {} :: {}", d, e);
+            println!("SEARCH tried={} found=1", it + 1);
+            return 1;
+        }
+    }
+    println!("SEARCH tried={} found=0", n);
+    0
+}
